@@ -85,7 +85,8 @@ def realise(t, lib='et'):
             if n2.startswith('{'):
                 uri = n2[1:].split('}')[0]
                 if uri not in nsmap.values():
-                    nsmap['n%d' % len(nsmap)] = uri
+                    # one fixed prefix per URI: lxml resolves clashing prefixes of separately built subtrees in surprising ways
+                    nsmap['ns_' + uri.replace(':', '_')] = uri
         e = LX.Element(name, dict(attrs), nsmap=nsmap or None)
     e.text = text
     for k in kids:
